@@ -142,6 +142,7 @@ def render(prog, resource_paths=None):
             out.append('        raise %s("boom %s %%d" %% x)' % ("__VNoMemo__" if nd.get("fail_kind") == "nomemo" else "ValueError", nd["name"]))
         out.append('    return ["%s", x, r%s]' % (nd["name"], ', ["z", z]' if nd.get("zdef") else ""))
         out.append("")
+    out += ["@m.memento_function", "def vprobe(x):", '    return ["probe", x]', ""]     # called by nobody: an unrelated top-level call
     return "\n".join(out) + "\n"
 
 
